@@ -19,3 +19,5 @@ import ZckModel.Pred.Read
 import ZckModel.Writer
 import ZckModel.Pred.Write
 import ZckModel.Tools
+import ZckModel.Copy
+import ZckModel.Pred.Copy
